@@ -806,6 +806,18 @@ class Engine(Exec):
                 v = SpecArr(st.heap[v.aid], v.shape, v.elem)
             st.env[n] = v
 
+    def ghost_update(self, lc, st, fr):
+        ups = lc.get('ghost_update', {})
+        if not ups:
+            return
+        old = fr.spec_only
+        fr.spec_only = True
+        try:
+            vals = {n: self.ev_clause_val(ex, st, fr) for n, ex in ups.items()}
+        finally:
+            fr.spec_only = old
+        st.env.update(vals)
+
     def check_inv(self, lc, st, fr, node, kind):
         for i, cl in enumerate(lc.get('inv', [])):
             old = fr.spec_only
@@ -854,6 +866,7 @@ class Engine(Exec):
         self.bind_ghost(lc, st, fr)
         self.check_inv(lc, st, fr, s, 'loop_inv_init')
         names, arr_objs = self.havoc_set(s.body, st, fr)
+        names = set(names) | set(lc.get('ghost_update', {}))
         # arbitrary iteration
         sB = st.fork()
         self.do_havoc(sB, names, arr_objs)
@@ -868,6 +881,7 @@ class Engine(Exec):
         for b in body_out:
             if b.status in ('normal', 'continue'):
                 b.status = 'normal'
+                self.ghost_update(lc, b, fr)
                 b.env[iname] = simp(i + 1)
                 self.check_inv(lc, b, fr, s, 'loop_inv_step')
             elif b.status == 'break':
@@ -934,14 +948,25 @@ class Engine(Exec):
         self.bind_ghost(lc, st, fr)
         self.check_inv(lc, st, fr, s, 'loop_inv_init')
         names, arr_objs = self.havoc_set(s.body, st, fr)
+        names = set(names) | set(lc.get('ghost_update', {}))
         sB = st.fork()
         self.do_havoc(sB, names, arr_objs)
         self.assume_inv(lc, sB, fr)
         c = truth(self.ev(s.test, sB, fr))
         dec = lc.get('decreases')
+        decby = lc.get('decreases_by')
 
         def body(b0):
             d0 = None
+            if decby is not None:
+                # real-valued variant: non-negative while the loop runs, and each iteration lowers it by at
+                # least a positive loop-invariant amount
+                fr.spec_only = True
+                m0 = self.ev_clause_val(decby[0], b0, fr)
+                dl = self.ev_clause_val(decby[1], b0, fr)
+                fr.spec_only = False
+                self.prove(b0, fr, 'decreases_bounded', b_and(compare('GtE', m0, 0), compare('Gt', dl, 0)), s,
+                           clause='decreases_by %s, %s' % decby)
             if dec is not None:
                 fr.spec_only = True
                 d0 = self.ev_clause_val(dec, b0, fr)
@@ -951,7 +976,16 @@ class Engine(Exec):
             for b in self.run(s.body, b0, fr):
                 if b.status in ('normal', 'continue'):
                     b.status = 'normal'
+                    self.ghost_update(lc, b, fr)
                     self.check_inv(lc, b, fr, s, 'loop_inv_step')
+                    if decby is not None:
+                        fr.spec_only = True
+                        m1 = self.ev_clause_val(decby[0], b, fr)
+                        dl1 = self.ev_clause_val(decby[1], b, fr)
+                        fr.spec_only = False
+                        self.prove(b, fr, 'decreases_strict', b_and(compare('LtE', m1, binop('Sub', m0, dl)),
+                                                                    compare('Eq', dl1, dl)), s,
+                                   clause='decreases_by %s, %s' % decby)
                     if dec is not None:
                         fr.spec_only = True
                         d1 = self.ev_clause_val(dec, b, fr)
